@@ -113,6 +113,7 @@ def work(args):
                     vC = flatcheck.judge_fast(srv, m, rC, tt)
                     record(cC, '', rC, vC, 'lemma')
         # conversion options: single deviations on the base config and on the all-accepting config
+        if tier == 'quick' and g != gnames[0]: continue
         base = flatcheck.base_config(g)
         call = {'g': g + '+all', 'types': dict(base['types']), 'flags': dict(base['flags']), 'default': 2}
         devs = OPTION_DEVS if tier == 'quick' else OPTION_DEVS + \
